@@ -119,6 +119,15 @@ const serU = (u, depth = 0) => {
   return o
 }
 // the protocol's own descent: Z(a,b) = a===true ? true : a ? a[b] : undefined
+const coveredStrict = (U, p) => {
+  let cur = U
+  for (const k of p) {
+    if (cur === true) return true
+    if (!cur) return false
+    cur = cur[k]
+  }
+  return cur === true
+}
 const covered = (U, p) => {
   let cur = U
   for (const k of p) {
@@ -129,7 +138,17 @@ const covered = (U, p) => {
   return !!cur
 }
 const isObj = (v) => v !== null && typeof v === 'object'
+// paths whose value changed kind (primitive <-> object, array <-> plain object): everything below
+// them differs too (keys that vanish, prototype members of a former string, ...), so only a `true`
+// mark at or above them covers the change
+let STRICT = null
 const diffPaths = (a, b, p, out) => {
+  if (STRICT && (isObj(a) || isObj(b)) && !(isObj(a) && isObj(b) && Array.isArray(a) === Array.isArray(b))) {
+    const prim = isObj(a) ? b : a
+    // from/to null or undefined nothing hangs below the old value: the new keys are the diff
+    if (prim !== null && prim !== undefined) STRICT.push(p)
+    else if (isObj(a) && !isObj(b)) STRICT.push(p)
+  }
   if (isObj(a) && isObj(b) && Array.isArray(a) === Array.isArray(b)) {
     if (Array.isArray(a)) {
       if (a.length !== b.length) out.push([...p, 'length'])
@@ -164,9 +183,21 @@ function matchesPattern(p, pat) {
   for (let i = 0; i < p.length; i += 1) if (pat[i] !== '*' && String(pat[i]) !== String(p[i])) return false
   return true
 }
+function plainDiff(before, after) {
+  const req = []
+  req.strict = []
+  STRICT = req.strict
+  try {
+    diffPaths(before, after, [], req)
+  } finally {
+    STRICT = null
+  }
+  return req
+}
 function requiredMarks(before, changes, after, indexedLists) {
   const sim = clone(before)
   let required = []
+  required.strict = []
   for (const [path, newVal, spliceIndex, spliceDel] of changes) {
     const isSplice = spliceDel !== undefined
     // walk to the parent, creating containers the way the runtime does
@@ -220,6 +251,7 @@ function requiredMarks(before, changes, after, indexedLists) {
         }
         next.push(r)
       }
+      next.strict = required.strict
       required = next
       arr.splice(at, spliceDel, ...clone(ins))
       for (let j = at; j < at + ins.length; j += 1) required.push([...path, j])
@@ -235,7 +267,12 @@ function requiredMarks(before, changes, after, indexedLists) {
     } else {
       if (last === 'length' && Array.isArray(parent) && newVal === true) continue // synthesized mark
       parent[last] = clone(newVal)
-      diffPaths(snapshot, sim, [], required)
+      STRICT = required.strict
+      try {
+        diffPaths(snapshot, sim, [], required)
+      } finally {
+        STRICT = null
+      }
     }
   }
   if (!deepEq(sim, after)) return null
@@ -814,16 +851,16 @@ function runWorld(job) {
       kinds.add(ev.kind + ':' + st.comp)
       if (st === rootSt) rootKind = rootKind === null ? ev.kind : rootKind === ev.kind ? ev.kind : 'mixed'
       if (before !== undefined) {
-        let req = ev.batch ? requiredMarks(before, ev.batch.changes, after, st === rootSt ? job.indexedLists : null) : diffPaths(before, after, [], [])
+        let req = ev.batch ? requiredMarks(before, ev.batch.changes, after, st === rootSt ? job.indexedLists : null) : plainDiff(before, after)
         if (req === null) {
           bump(ctx, 'probe.batch_not_modelled')
           ctx.log.push(`batch-not-modelled ${st.tag} ${enc(ev.batch.changes)} before=${enc(before)} after=${enc(after)}`)
           // fall back to the plain positional diff (stricter)
-          req = diffPaths(before, after, [], [])
+          req = plainDiff(before, after)
         }
         if (ev.kind === 'tree') {
           bump(ctx, 'step.tree_path_updates')
-          const unc = req.filter((p) => !covered(ev.U, p))
+          const unc = req.filter((p) => !covered(ev.U, p)).concat((req.strict || []).filter((p) => !coveredStrict(ev.U, p)))
           if (unc.length) {
             unmet = true
             ctx.log.push(`precondition-unmet ${st.tag} ${enc(unc.slice(0, 4))}`)
@@ -1028,10 +1065,17 @@ function runWorld(job) {
         } else {
           // a component writes its own property; the runtime then calls the listener
           const beforeVal = l.node.data[l.name]
+          if (beforeVal === v || (beforeVal === null && v === undefined)) {
+            // not a change for the runtime (!==): the child would keep a private -0/0 variation
+            // that no host data reproduces
+            bump(ctx, 'step.op_skipped')
+            continue
+          }
           l.node.setData({ [l.name]: clone(v) })
           bump(ctx, 'fault.child_model_write')
           // a write that does not change the property is not propagated (nothing to check)
-          if (Object.is(beforeVal, l.node.data[l.name]) || !l.node.parentNode) entry = null
+          // (the runtime compares with !==, so -0 -> 0 is no change and NaN -> NaN is one)
+          if (beforeVal === v || (beforeVal === null && v === undefined) || !l.node.parentNode) entry = null
         }
         // put: the location the path named now holds the value the listener was given
         // (for a component: its property value after the component's own normalisation)
@@ -1058,27 +1102,34 @@ function runWorld(job) {
         afterFlush('child_set@' + step)
       } else if (kind === 'raw') {
         // replace the whole data and hand the generated code an explicit update-path tree
+        if (dataGroup._$pendingChanges && dataGroup._$pendingChanges.length) {
+          root.applyDataUpdates()
+          afterFlush('preraw@' + step)
+          if (ended || res.violation) break
+        }
         const next = clone(root.data)
+        let patchedAll = true
         for (const [pth, v] of op[1]) {
           const p = resolvePath(next, pth)
-          if (p === null || p.length === 0) continue
+          if (p === null || p.length === 0) {
+            patchedAll = false
+            continue
+          }
           let cur = next
           let ok = true
           for (let i = 0; i < p.length - 1; i += 1) {
-            if (!isObj(cur[p[i]])) {
+            // only plain objects are patched into (the explicit tree below names exactly these paths)
+            if (!isObj(cur[p[i]]) || Array.isArray(cur[p[i]])) {
               ok = false
               break
             }
             cur = cur[p[i]]
           }
           if (ok) cur[p[p.length - 1]] = dec(v)
+          else patchedAll = false
         }
+        void patchedAll
         const U = op[2] === true ? true : dec(op[2])
-        if (dataGroup._$pendingChanges && dataGroup._$pendingChanges.length) {
-          root.applyDataUpdates()
-          afterFlush('preraw@' + step)
-          if (ended || res.violation) break
-        }
         dataGroup.replaceWholeData(next)
         ctx.log.push(`raw U=${enc(U)}`)
         tmplInst.procGenWrapper.update(curD(), U)
@@ -1137,28 +1188,73 @@ function runLockstep(job) {
   const b = (k, n = 1) => {
     counters[k] = (counters[k] || 0) + n
   }
+  // adjacent text nodes render like one (they only arise from ill-formed sources)
+  const mergeText = (o) => {
+    if (o === null || typeof o !== 'object') return o
+    if (Array.isArray(o)) {
+      const out = []
+      for (const x of o) {
+        const last = out[out.length - 1]
+        if (typeof x === 'string' && typeof last === 'string' && out.length > 1) out[out.length - 1] = last + x
+        else if (x && typeof x === 'object' && 'x' in x && last && typeof last === 'object' && 'x' in last) out[out.length - 1] = { x: String(last.x) + String(x.x) }
+        else out.push(mergeText(x))
+      }
+      // an empty text node renders nothing
+      return out.filter((x, i) => !(x && typeof x === 'object' && !Array.isArray(x) && x.x === '') && !(x === '' && i > 0))
+    }
+    const r = {}
+    for (const k of Object.keys(o)) r[k] = mergeText(o[k])
+    return r
+  }
+  const SL = (root) => enc(mergeText({ shadow: ser(root.getShadowRoot()), composed: serComposed(root) }))
+  const alive = roots.map(() => true)
+  res.violations = []
   const compare = (label) => {
-    const ss = roots.map(S)
+    const ss = roots.map((r, i) => (alive[i] ? SL(r) : null))
     log.push(label + ' ' + ss[0])
     b('step.oracle_evaluations')
     for (let i = 1; i < ss.length; i += 1) {
+      if (!alive[i]) continue
       if (ss[i] !== ss[0]) {
-        if (!res.violation) res.violation = { property: 'C14', class: step === 0 ? 'reprinted_renders_differently' : 'reprinted_updates_differently', step, detail: `${label}: instance ${i} (${job.bundleLabels ? job.bundleLabels[i] : i}) differs from the original\n${classifyMismatch(ss[i], ss[0]).replace('live ', 'this ').replace('fresh', 'orig ')}` }
-        return false
+        if (step > 0) {
+          // is the original itself sound here? If its live tree is not what a fresh creation with
+          // its data renders, the difference is an update defect (C06/C07 domain), not a printer one
+          let fresh0 = null
+          try {
+            const ctx = newCtx(true)
+            const saved = CTX
+            CTX = ctx
+            try {
+              fresh0 = SL(createRoot(job, lists[0], ctx, clone(roots[0].data)))
+            } finally {
+              CTX = saved
+            }
+          } catch (e) {
+            fresh0 = null
+          }
+          if (fresh0 !== ss[0]) {
+            b('discard.original_updates_unsoundly')
+            res.originalUnsound = true
+            for (let k = 1; k < alive.length; k += 1) alive[k] = false
+            return false
+          }
+        }
+        alive[i] = false
+        res.violations.push({ instance: i, property: 'C14', class: step === 0 ? 'reprinted_renders_differently' : 'reprinted_updates_differently', step, detail: `${label}: instance ${i} (${job.bundleLabels ? job.bundleLabels[i] : i}) differs from the original\n${classifyMismatch(ss[i], ss[0]).replace('live ', 'this ').replace('fresh', 'orig ')}` })
       }
     }
-    // same binding-map advertisement is not required (over-approximation allowed); only behaviour
-    return true
+    return alive.slice(1).some((x) => x)
   }
   let ended = null
   if (compare('create')) {
     for (const op of job.schedule || []) {
-      if (ended || res.violation) break
+      if (ended) break
       step += 1
       const kind = op[0]
       try {
         let applied = false
         for (let i = 0; i < roots.length; i += 1) {
+          if (!alive[i]) continue
           const root = roots[i]
           CTX = ctxs[i]
           if (kind === 'set') {
